@@ -2159,6 +2159,11 @@ def gen_bucket_shape_programs(deep=False):
         ("short-checksum-then-tombstone", fr(A) + b"\nabc\tjunk" + fr(T)),
         ("empty-checksum-then-good", fr(A) + b"\n\t" + fr(B).split(b"\t", 1)[1] + fr(B)),
         ("long-checksum-then-good", fr(A) + b"\n" + b"0" * 70 + b"\tjunk" + fr(B)),
+        # the separating newline became a TAB: the fused line has four fields - both records are void (not just the second)
+        ("newline-became-tab", fr(A) + b"\t" + fr(B)[1:]),
+        ("newline-became-tab-tombstone", fr(A) + fr(B) + b"\t" + fr(T)[1:]),
+        ("newline-became-tab-then-good", fr(T) + b"\t" + fr(A)[1:] + fr(B)),
+        ("tab-fragment-appended-to-line", fr(A) + fr(B) + b"\t" + fr(A).split(b"\t", 1)[1]),
     ]
     progs = []
     bp = bucket_path(key.encode())
